@@ -47,7 +47,8 @@ end
 def walkE (ps : List PortT) : List (Bytes × List Nat) := walkEL ps 0
 
 /-- a literal or enumerated name: NUL-free, no `{`/`*`, at most one `#`, which is followed
-    by a number `1 ≤ N < 2^31` and then by a non-digit -/
+    by a number `N < 2^31` and then by a non-digit (`N ≥ 1` is asked separately: `EnumPos`,
+    RtoscModel/Path/EnumNum.lean) -/
 def EnumName (n : Bytes) : Prop :=
   (∀ c ∈ lit n, c ≠ 0 ∧ c ≠ 123 ∧ c ≠ 42) ∧
   match splitHash (lit n) with
